@@ -56,8 +56,12 @@ Fixpoint replace_https_aux (l : list rune) (skip : nat) : list rune :=
   end.
 Definition normalize_token (w : word) : word := replace_https_aux w O.
 
-Definition flush_buf (T : tables) (obuf_rev : list rune) : word :=
-  normalize_token (unescape T (rev obuf_rev)).
+(* flushBuf: html.UnescapeString, then ("fix:") lower-casing of what it produced when
+   normalising (the buffer was lower-cased rune by rune before the escape
+   sequences were resolved, so "&#65;bc" would otherwise give "Abc"), then normalizeToken *)
+Definition flush_buf (T : tables) (normalize : bool) (obuf_rev : list rune) : word :=
+  let u := unescape T (rev obuf_rev) in
+  normalize_token (if normalize then map (to_lower T) u else u).
 
 (* ---------- the three ignorableTexts regular expressions ---------- *)
 
@@ -275,7 +279,7 @@ Definition step (T : tables) (normalize : bool) (s : tstate) (r : rune) : tstate
       if N.eqb c HYPHEN then set_flags (set_bufs s ob' (linebuf_rev s)) true (dWord s)
       else
         let s := note_amp s in
-        let lb := flush_buf T (obuf_rev s) :: linebuf_rev s in
+        let lb := flush_buf T normalize (obuf_rev s) :: linebuf_rev s in
         let s1 := append_to_doc T normalize s lb in
         let s2 := set_bufs s1 [] [] in
         let s3 := if normalize then s2 else push_tok s2 ([NLr], line s2) in
@@ -295,7 +299,7 @@ Definition step (T : tables) (normalize : bool) (s : tstate) (r : rune) : tstate
         if dEOL s then s
         else
           let s := note_amp s in
-          let lb := flush_buf T (obuf_rev s) :: linebuf_rev s in
+          let lb := flush_buf T normalize (obuf_rev s) :: linebuf_rev s in
           if dWord s then
             let s1 := append_to_doc T normalize s lb in
             let s2 := set_flags (set_bufs s1 [] []) (dEOL s1) false in
@@ -312,7 +316,7 @@ Definition step (T : tables) (normalize : bool) (s : tstate) (r : rune) : tstate
 (* after the last rune *)
 Definition finish (T : tables) (normalize : bool) (s : tstate) : tstate :=
   let s := note_amp s in
-  let lb := match obuf_rev s with [] => linebuf_rev s | _ => flush_buf T (obuf_rev s) :: linebuf_rev s end in
+  let lb := match obuf_rev s with [] => linebuf_rev s | _ => flush_buf T normalize (obuf_rev s) :: linebuf_rev s end in
   append_to_doc T normalize s lb.
 
 Record doc := { d_toks : list (word * N); d_matches : list N; d_amps : list word }.
